@@ -26,6 +26,11 @@
 #else
 #define H_HIT ((void)0)
 #endif
+#ifdef H_OBJDATA
+#define H_JOURNAL (this->h_journal.push_back((int)this->h_journal.size()))
+#else
+#define H_JOURNAL ((void)0)
+#endif
 namespace mpl = boost::mpl;
 namespace msm = boost::msm;
 using msm::front::Row;
